@@ -22,6 +22,8 @@ package resolver
 
 import (
 	"fmt"
+	"math"
+	"strconv"
 
 	"github.com/gontainer/gontainer-helpers/v3/exporter"
 	"github.com/gontainer/gontainer/internal/pkg/consts"
@@ -39,7 +41,7 @@ func (NonStringPrimitiveResolver) ResolveArg(i any) (e ArgExpr, _ error) {
 	// Method NonStringPrimitiveResolver{}.Supports checks whether the underlying type of `i` is primitive.
 	// exporter.MustExport never panics for primitive types, so there is no reason to handle an error.
 	return ArgExpr{
-		Code:              fmt.Sprintf(consts.TplDependencyValue, exporter.MustExport(i)),
+		Code:              fmt.Sprintf(consts.TplDependencyValue, exportPrimitive(i)),
 		Raw:               i,
 		DependsOnParams:   nil,
 		DependsOnServices: nil,
@@ -50,4 +52,27 @@ func (NonStringPrimitiveResolver) ResolveArg(i any) (e ArgExpr, _ error) {
 func (NonStringPrimitiveResolver) Supports(i any) bool {
 	_, ok := i.(string)
 	return !ok && types.IsPrimitive(i)
+}
+
+// exportPrimitive exports the given primitive value to a GO code.
+// YAML allows for non-finite floats (.inf, -.inf, .nan), and for floats that cannot be written down
+// as a GO constant in the decimal notation without an exponent, they require a dedicated notation.
+func exportPrimitive(i any) string {
+	f, ok := i.(float64)
+	if !ok {
+		return exporter.MustExport(i)
+	}
+
+	switch {
+	case math.IsNaN(f):
+		return "func() float64 { var zero float64; return zero / zero }()"
+	case math.IsInf(f, 1):
+		return "func() float64 { var zero float64; return 1 / zero }()"
+	case math.IsInf(f, -1):
+		return "func() float64 { var zero float64; return -1 / zero }()"
+	case math.Abs(f) >= 1e21:
+		return "float64(" + strconv.FormatFloat(f, 'e', -1, 64) + ")"
+	}
+
+	return exporter.MustExport(i)
 }
